@@ -6,6 +6,7 @@ import Resolvo.MDet.Checked
 import Resolvo.MDet.Graph
 import Resolvo.Abs.Decide
 import Resolvo.Render
+import Resolvo.RenderTruth
 /-! Driver for the solver families: evaluates the oracles on the implementation's outputs. -/
 namespace Resolvo.Drv
 open Resolvo
@@ -281,7 +282,13 @@ def mdetCompare (U : Universe) (ms : Resolvo.MDet.S) (o : Resolvo.MDet.Outcome) 
       acc.push (d (b.toNat / 16)) |>.push (d (b.toNat % 16))) ""
     let msg := if mres == "unsat" && !r.message.isEmpty && !(r.message.startsWith "panic") then
         let kinds := mconf.map (fun cid => (ms.clauses.getD cid default).kind)
-        match Resolvo.Render.render U (Resolvo.Render.buildGraph U ms.origins kinds) with
+        let rg := Resolvo.Render.buildGraph U ms.origins kinds
+        -- the graph the message is rendered from (and `C03.edges_truthful` speaks about) has the real graph's edges
+        let rge := Resolvo.MDet.sortStr ((Resolvo.Render.nodeEdges rg).map (fun x => Resolvo.MDet.edgeStr ⟨x.1, x.2.1, x.2.2⟩))
+        if !(r.graphNodes.isEmpty && r.graphEdges.isEmpty) && rge != r.graphEdges then
+          [s!"oracle-fail C03,C06 mdet-graph: the ordered graph model has other edges: implementation [{" ".intercalate r.graphEdges}] model [{" ".intercalate rge}]"]
+        else
+        match Resolvo.Render.render U rg with
         | some text =>
           if hexOf text == r.message then ["info mdet-message 1"]
           else [s!"oracle-fail C04,C06 mdet-message: the user-friendly conflict message differs: implementation `{r.message}` model `{hexOf text}`"]
